@@ -63,13 +63,22 @@ pub fn run_probes(dict: Dictionary) -> (Vec<Value>, Vec<u32>) {
 }
 
 fn outcome_event(class: &str, what: Value, r: std::thread::Result<vibrato::errors::Result<Dictionary>>) -> Value {
+    outcome_event_lex(class, what, r, None)
+}
+
+/// `lexs`: the surfaces of the lexicon rows as the INPUT files give them (when they are known: the
+/// token-level cases), so that the specification can tell a position where no lexicon entry starts -
+/// the only place where known finding F12 makes tokenization panic - from any other position.
+fn outcome_event_lex(class: &str, what: Value, r: std::thread::Result<vibrato::errors::Result<Dictionary>>, lexs: Option<Vec<Vec<u32>>>) -> Value {
+    let known = lexs.is_some();
+    let lexs = lexs.unwrap_or_default();
     match r {
         Ok(Ok(d)) => {
             let (probes, nounk) = run_probes(d);
-            json!({"ev": "build", "class": class, "outcome": "ok", "probes": probes, "nounk": nounk, "what": what})
+            json!({"ev": "build", "class": class, "outcome": "ok", "probes": probes, "nounk": nounk, "what": what, "lexknown": known, "lexs": lexs})
         }
-        Ok(Err(e)) => json!({"ev": "build", "class": class, "outcome": "err", "probes": [], "nounk": [], "what": what, "msg": e.to_string().chars().take(120).collect::<String>()}),
-        Err(_) => json!({"ev": "build", "class": class, "outcome": "panic", "probes": [], "nounk": [], "what": what}),
+        Ok(Err(e)) => json!({"ev": "build", "class": class, "outcome": "err", "probes": [], "nounk": [], "what": what, "lexknown": known, "lexs": lexs, "msg": e.to_string().chars().take(120).collect::<String>()}),
+        Err(_) => json!({"ev": "build", "class": class, "outcome": "panic", "probes": [], "nounk": [], "what": what, "lexknown": known, "lexs": lexs}),
     }
 }
 
@@ -89,6 +98,10 @@ pub fn parse_cases(a: &HashMap<String, String>) -> i32 {
         let mat = lines_of(&files["matrix"], " ", fin("matrix"));
         let lex = lines_of(&files["lex"], ",", fin("lex"));
         let unk = lines_of(&files["unk"], ",", fin("unk"));
+        // surfaces of the lexicon rows (first token of each row of the token-level file)
+        let lexs: Vec<Vec<u32>> = files["lex"].as_array().cloned().unwrap_or_default().iter()
+            .filter_map(|l| l.as_array().and_then(|a| a.first()).and_then(|t| t.as_str()).map(|t| t.chars().map(|c| c as u32).collect::<Vec<u32>>()))
+            .filter(|s: &Vec<u32>| !s.is_empty()).collect();
         if v["bigram"].as_bool().unwrap_or(false) {
             // bigram.right/left: id TAB f,f,...   bigram.cost: rf/lf TAB cost
             let idrows = |x: &Value, fin: bool| -> String {
@@ -119,13 +132,13 @@ pub fn parse_cases(a: &HashMap<String, String>) -> i32 {
             for dual in [false, true] {
                 let r = catch_unwind(AssertUnwindSafe(|| SystemDictionaryBuilder::from_readers_with_bigram_info(
                     lex.as_bytes(), br.as_bytes(), bl.as_bytes(), bc.as_bytes(), chr.as_bytes(), unk.as_bytes(), dual)));
-                let ev = outcome_event(v["class"].as_str().unwrap_or("DONT_CARE"), json!({"edit": v["edit"], "dual": dual}), r);
+                let ev = outcome_event_lex(v["class"].as_str().unwrap_or("DONT_CARE"), json!({"edit": v["edit"], "dual": dual}), r, Some(lexs.clone()));
                 writeln!(f, "{}", ev).unwrap();
             }
             continue;
         }
         let r = catch_unwind(AssertUnwindSafe(|| SystemDictionaryBuilder::from_readers(lex.as_bytes(), mat.as_bytes(), chr.as_bytes(), unk.as_bytes())));
-        let ev = outcome_event(v["class"].as_str().unwrap_or("DONT_CARE"), json!({"edit": v["edit"], "edit2": v["edit2"]}), r);
+        let ev = outcome_event_lex(v["class"].as_str().unwrap_or("DONT_CARE"), json!({"edit": v["edit"], "edit2": v["edit2"]}), r, Some(lexs));
         writeln!(f, "{}", ev).unwrap();
     }
     0
@@ -252,7 +265,7 @@ pub fn fuzz_build(a: &HashMap<String, String>) -> i32 {
 fn gen_surface(rng: &mut Rng) -> Vec<u32> {
     // letters, the CSV specials (comma, quote), blanks, multi-byte, astral - and the characters other
     // CSV dialects give a meaning to (comment '#', ';', escape '\\', single quote), which are plain text here
-    let pool: &[u32] = &[0x61, 0x62, 0x63, 0x2C, 0x22, 0x20, 0xE9, 0x6771, 0x1F600, 0x3000, 0x23, 0x3B, 0x5C, 0x27];
+    let pool: &[u32] = &[0x61, 0x62, 0x63, 0x2C, 0x22, 0x20, 0xE9, 0x6771, 0x1F600, 0x3000, 0x23, 0x3B, 0x5C, 0x27, 0x0A];
     if rng.chance(1, 12) {
         return vec![];
     }
@@ -327,7 +340,10 @@ pub fn record_lex(a: &HashMap<String, String>) -> i32 {
             text.push('\n');
         }
         for (k, (s, l, r, c, feat)) in rows.iter().enumerate() {
-            text.push_str(&format!("{},{},{},{},{}", cell_text(s, force), l, r, c, feat));
+            // a quote-everything writer also quotes the numeric columns
+            let num = |rng: &mut Rng, v: String| -> String { if force && rng.chance(1, 2) { format!("\"{}\"", v) } else { v } };
+            let (lt, rt, ct) = (num(&mut rng, l.to_string()), num(&mut rng, r.to_string()), num(&mut rng, c.to_string()));
+            text.push_str(&format!("{},{},{},{},{}", cell_text(s, force), lt, rt, ct, feat));
             if k + 1 < rows.len() {
                 text.push('\n');
                 if rng.chance(1, 6) {
